@@ -82,14 +82,56 @@ class ScriptTransport(Transport):
         self.writes.append(decoded_message)
 
 
+_DRIVE_LOOP = None
+
+
+def drive_loop():
+    """The virtual loop the sequential driver uses when no explorer loop is running."""
+    global _DRIVE_LOOP
+    if _DRIVE_LOOP is None:
+        from .vloop import VLoop
+
+        _DRIVE_LOOP = VLoop()
+    return _DRIVE_LOOP
+
+
 def drive(coro) -> Any:
-    """Run a coroutine that must not suspend (sequential transport)."""
+    """Run a coroutine to completion as a real asyncio Task on a virtual loop. With the sequential transports
+    nothing waits for the environment, but the code under test may still suspend on its own (sleep(0), a
+    lock, shield, asyncio.timeout): its ready handles are run in order and its timers fire in virtual time.
+    A coroutine that waits for something nobody provides is reported."""
+    import asyncio
+    from asyncio import events
+
+    loop = events._get_running_loop()
+    own = loop is None
+    if own:
+        loop = drive_loop()
+        loop.enter()
     try:
-        coro.send(None)
-    except StopIteration as stop:
-        return stop.value
-    coro.close()
-    raise HarnessError("coroutine suspended under the sequential driver")
+        task = loop.create_task(coro)
+        n = 0
+        while not task.done():
+            if loop.step():
+                n += 1
+                if n > 200000:
+                    raise HarnessError("the sequential driver does not come to rest (livelock)")
+                continue
+            if getattr(loop, "next_timer", None) is not None and loop.next_timer() is not None:
+                loop.advance()
+                continue
+            task.cancel()
+            loop.run_ready()
+            raise HarnessError("coroutine suspended under the sequential driver: it waits for something nobody provides")
+        if task.cancelled():
+            raise asyncio.CancelledError
+        exc = task.exception()
+        if exc is not None:
+            raise exc
+        return task.result()
+    finally:
+        if own:
+            loop.leave()
 
 
 def msg_tuple(m: Any) -> tuple:
